@@ -727,6 +727,60 @@ def run(ctx: Any, prog: Program) -> None:
                   'together with a position that belongs to another write - in another archive the bytes there are different, or missing', func='FileInfo.write', text=f'offset `{U(v19)[:40]}` is the end of the storage')
     ctx.shape('C13.Z19', n19 >= 3, vpk, fw19, f'{n19} assignments of self.offset found in FileInfo.write (directory tail, numbered archive, no archive part)', func='FileInfo.write', text='offset assignments')
 
+    # ---- Z20: a write that changes the contents sets the whole placement --------------------------------------------------------------------
+    # An entry is (crc, start_data, arch_index, offset, arch_len).  Once FileInfo.write has accepted new data (it stores the new crc) every way
+    # out of the function has assigned all four placement fields: one left at its old value (the tail length of the previous, longer
+    # contents) makes read() append bytes that belong to the previous version or to another file.
+    ctx.rule('C13.Z20', 'every exit of FileInfo.write after the new checksum is stored has assigned start_data, arch_len, arch_index and offset', floor=1)
+    REQ20 = {'start_data', 'arch_len', 'arch_index', 'offset'}
+    exits20: List[Tuple[ast.AST, Set[str]]] = []
+
+    def _flow20(stmts: List[ast.stmt], have: Optional[Set[str]]) -> Optional[Set[str]]:
+        """have: attributes of self assigned since the crc store (None: crc not stored yet).  Returns the set at fall-through, or a
+        set containing '<dead>' when every path has left."""
+        for st in stmts:
+            if have is not None and '<dead>' in have:
+                break
+            if isinstance(st, ast.Return):
+                if have is not None:
+                    exits20.append((st, set(have)))
+                return (have or set()) | {'<dead>'}
+            if isinstance(st, ast.Raise):
+                return (have or set()) | {'<dead>'}
+            if isinstance(st, (ast.Assign, ast.AugAssign, ast.AnnAssign)):
+                tg = st.targets if isinstance(st, ast.Assign) else [st.target]
+                names = {x.attr for t in tg for x in ast.walk(t) if isinstance(x, ast.Attribute) and dotted(x.value) == 'self' and isinstance(x.ctx, ast.Store)}
+                if 'crc' in names and have is None:
+                    have = set()
+                if have is not None:
+                    have |= names
+            elif isinstance(st, ast.If):
+                a = _flow20(st.body, None if have is None else set(have))
+                b = _flow20(st.orelse, None if have is None else set(have))
+                da, db = a is not None and '<dead>' in a, b is not None and '<dead>' in b
+                if da and db:
+                    return (have or set()) | {'<dead>'}
+                if da:
+                    have = b
+                elif db:
+                    have = a
+                else:
+                    have = None if (a is None and b is None) else (a if b is None else (b if a is None else a & b))
+            elif isinstance(st, (ast.With, ast.Try)):
+                have = _flow20(st.body, have)
+            elif isinstance(st, (ast.For, ast.While)):
+                _flow20(st.body, None if have is None else set(have))
+        return have
+    fw20 = vpk.methods('FileInfo')['write']
+    end20 = _flow20(list(fw20.body), None)
+    if end20 is not None and '<dead>' not in end20:
+        exits20.append((fw20.body[-1], set(end20)))
+    ctx.shape('C13.Z20', len(exits20) >= 1, vpk, fw20, 'no exit of FileInfo.write after the checksum store was found', func='FileInfo.write', text='placement fields assigned on every exit')
+    for node20, have20 in exits20:
+        miss20 = sorted(REQ20 - have20)
+        ctx.check('C13.Z20', not miss20, vpk, node20, f'FileInfo.write can leave at line {node20.lineno} having stored the new checksum but not {miss20}: the entry keeps the value of the previous contents there (a stale tail '
+                  'length makes read() append old bytes; verify() fails and the stale entry is written to the directory)', func='FileInfo.write', text=f'exit at `{U(node20)[:30]}` has the whole placement')
+
     # ---- Z15: file data in a numbered archive is read at the offset recorded for it ---------------------------------------------------------
     # Overwrites and removals leave dead blocks in the numbered archives and new data is appended, so the live blocks are neither contiguous
     # nor in directory order: a read of `<entry>.arch_len` bytes is right only directly after `seek(<entry>.offset)` on the same file object.
@@ -845,6 +899,7 @@ def run(ctx: Any, prog: Program) -> None:
         ctx.shape('C13.Z6', False, vpk, w, 'preload slice bound not recognised', func='FileInfo.write', text='preload bounded to 16 bits')
 
 MUTANTS = [
+    {'id': 'arch_len_kept_when_tail_vanishes', 'file': 'vpk.py', 'find': "        self.arch_len = len(arch_data)\n\n        if self.arch_len:", 'replace': "        if arch_data:\n            self.arch_len = len(arch_data)\n\n        if arch_data:", 'expect': 'C13.Z20', 'note': 'round 13'},
     {'id': 'offset_from_a_block_table', 'file': 'vpk.py', 'find': "                self.offset = len(self.vpk.footer_data)\n", 'replace': "                self.offset = self.vpk._fileinfo.get('blocks', {}).get(new_checksum, len(self.vpk.footer_data))\n", 'expect': 'C13.Z19', 'note': 'round 12'},
     {'id': 'archive_index_carried_over', 'file': 'vpk.py', 'find': "                        if info.arch_index is None:\n                            arch_ind = DIR_ARCH_INDEX\n                        else:\n                            arch_ind = info.arch_index\n", 'replace': "                        if info.arch_index is not None:\n                            arch_ind = info.arch_index\n", 'extra': [{'file': 'vpk.py', 'find': "            key_getter = operator.itemgetter(0)\n", 'replace': "            key_getter = operator.itemgetter(0)\n            arch_ind = DIR_ARCH_INDEX\n"}], 'expect': 'C13.Z18', 'note': 'round 12'},
     {'id': 'write_mode_reads_old_directory', 'file': 'vpk.py', 'find': "        if self.mode is OpenModes.WRITE:\n            # Erase the directory file, we ignore current contents.", 'replace': "        if self.mode is OpenModes.WRITE and not os.path.exists(self.path):\n            # Erase the directory file, we ignore current contents.", 'expect': 'C13.Z17', 'refuse_ok': True, 'note': 'round 11'},
